@@ -504,8 +504,9 @@ impl Check for C18 {
             let nlines: usize = runs.iter().map(|r| r.1).sum();
             let mut longs: Vec<Option<(usize, usize)>> = vec![None];
             for at in 0..nlines {
-                for f in [3usize, 10, 40] {
-                    if quick && f == 10 {
+                // x800 / x1500: one line longer than one / two 8 KiB reader buffers
+                for f in [3usize, 10, 40, 800, 1500] {
+                    if quick && (f == 10 || f == 1500) {
                         continue;
                     }
                     longs.push(Some((at, f)));
@@ -549,7 +550,7 @@ impl Check for C18 {
         json!({
             "run_shapes": run_shapes(4, if q {3} else {4}).len(), "max_runs": 4, "max_run_length": if q {3} else {4},
             "non_grouped_shapes": nongrouped_shapes().len(),
-            "line_patterns": "uniform; one line longer by x3 / x10 / x40 at every position",
+            "line_patterns": "uniform; one line longer by x3 / x10 / x40 / x800 (9.6 KB) / x1500 (18 KB) at every position",
             "final_newline": [true, false], "formats": ["bedGraph", "bed"],
             "chunk_counts": "1..lines+2 for every file",
             "view_windows": "all 0<=a<=b<=12, a<=10 over a 10-byte file",
@@ -581,7 +582,12 @@ pub enum C19Case {
     ToolGenerated { extra: usize, threads: usize },
     /// the bedtobigbed tool with --autosql
     ToolSupplied { idx: usize },
+    /// the bedtobigbed tool reading the BED from standard input (spelling 0..3 of the input
+    /// argument), with --autosql (schema idx) or without
+    ToolStdin { idx: Option<usize>, spelling: usize, extra: usize },
 }
+
+const STDIN_SPELLINGS: [&str; 3] = ["-", "stdin", "/dev/stdin"];
 
 pub struct C19;
 
@@ -595,6 +601,9 @@ fn supplied_schemas() -> Vec<(String, usize)> {
         ("table t\n\"c\"\n(\nstring chrom; \"a\"\nuint chromStart; \"b\"\nuint chromEnd; \"c\"\n)".to_string(), 3),
         ("table bed6 \"six\" ( string chrom; \"\" uint chromStart; \"\" uint chromEnd; \"\" string name; \"\" uint score; \"\" char[1] strand; \"\" )".to_string(), 6),
         ("table e \"enum and set\" (\n string chrom; \"c\"\n uint chromStart; \"s\"\n uint chromEnd; \"e\"\n enum(a, b, c) kind; \"k\"\n set(x,y) flags; \"f\"\n int[3] fixed; \"arr\"\n uint n; \"count\"\n int[n] vals; \"var\"\n lstring blob; \"l\"\n)\n".to_string(), 9),
+        // a helper declaration before the table: the table's fields are the declared columns
+        ("simple point \"a helper type\" ( int x; \"x\" int y; \"y\" )\ntable main \"rows\" ( string chrom; \"c\" uint chromStart; \"s\" uint chromEnd; \"e\" string name; \"n\" uint score; \"v\" )".to_string(), 5),
+        ("object big \"seven\" ( int a; \"\" int b; \"\" int c; \"\" int d; \"\" int e; \"\" int f; \"\" int g; \"\" )\ntable small \"rows\" ( string chrom; \"c\" uint chromStart; \"s\" uint chromEnd; \"e\" string name; \"n\" )".to_string(), 4),
         ("table idx \"indexes\" ( string chrom primary; \"c\" uint chromStart index; \"s\" uint chromEnd unique; \"e\" string name index[12]; \"n\" uint id auto; \"i\" )".to_string(), 5),
     ]
 }
@@ -778,6 +787,14 @@ impl Check for C19 {
         }
         for idx in 0..supplied_schemas().len() {
             v.push(C19Case::ToolSupplied { idx });
+            for spelling in 0..STDIN_SPELLINGS.len() {
+                v.push(C19Case::ToolStdin { idx: Some(idx), spelling, extra: 1 });
+            }
+        }
+        for extra in [0usize, 1, 2, 9] {
+            for spelling in 0..STDIN_SPELLINGS.len() {
+                v.push(C19Case::ToolStdin { idx: None, spelling, extra });
+            }
         }
         let maxlen = if quick { 5 } else { 7 };
         for len in 0..=maxlen {
@@ -842,6 +859,10 @@ impl Check for C19 {
             C19Case::ToolSupplied { idx } => {
                 let (text, n) = supplied_schemas()[*idx].clone();
                 crate::clifam::c19_tool(1, Some((text, n)), 2, out)
+            }
+            C19Case::ToolStdin { idx, spelling, extra } => {
+                let supplied = idx.map(|i| supplied_schemas()[i].clone());
+                crate::clifam::c19_tool_from(*extra, supplied, 2, Some(STDIN_SPELLINGS[*spelling]), out)
             }
             C19Case::Grammar { block } => {
                 let g = grammar_schemas();
